@@ -78,16 +78,12 @@ Definition binary_constructs : list (str * construct) :=
 
 Fixpoint dedup (l : list str) : list str :=
   match l with [] => [] | x :: t => if existsb (leqb x) t then dedup t else x :: dedup t end.
-(* scope of C02: scalar operators and numeric functions; string and date functions (modules text and date) are
-   outside its value domain *)
-Local Open Scope N_scope.
-Definition p_text : str := [116;101;120;116;46].
-Definition p_date : str := [100;97;116;101;46].
-Local Close Scope N_scope.
-Definition in_scope (nm : str) : bool :=
-  match strip_prefix p_text nm, strip_prefix p_date nm with None, None => true | _, _ => false end.
+(* scope: EVERY template of the dialect that is an expression of the engine grammar -- scalar operators, numeric
+   functions, and (since the reconciliation with /repo e8f08a7, which gave the LIKE templates a strength and
+   parenthesised their left operand) the string and date functions of modules text and date as well.  Strings and
+   dates are outside C02's VALUE domain, not outside its syntax: a LIKE template regroups like any other operator. *)
 Definition template_names (dialect : str) : list str :=
-  dedup (filter in_scope (map t_name (filter (fun t => leqb (t_module t) dialect || leqb (t_module t) []) templates))).
+  dedup (map t_name (filter (fun t => leqb (t_module t) dialect || leqb (t_module t) []) templates)).
 Definition template_constructs (dialect : str) : list (str * construct) :=
   flat_map (fun nm => match find_template dialect (n_std_prefix ++ nm) with
                       | Some t => match c_template t with
@@ -247,7 +243,6 @@ Definition template_holes_sufficient (t : template) : bool :=
 
 Definition tname_of (m n : str) : str := m ++ [46%N] ++ n.
 Definition tname (t : template) : str := tname_of (t_module t) (t_name t).
-Definition in_scope_template (t : template) : bool := in_scope (t_name t).
 
 (* ---- known classes of bad triples (narrow, decidable; each is a recorded finding) ---- *)
 Local Open Scope N_scope.
@@ -262,14 +257,27 @@ Definition k_mul : str := k_op ++ [42].
 Local Close Scope N_scope.
 Definition mem (s : str) (l : list str) : bool := existsb (leqb s) l.
 Definition dishonest_templates : list str := [k_div_i; k_math_log].
+(* C02-N5 (residue of /repo e8f08a7): the sqlite LIKE templates build their pattern with `||`, SQLite's strongest
+   binary operator, next to a hole that asks for strength 0: `{column:7} LIKE {prefix:0} || '%'`.  Site 1 of the
+   three templates is that hole (site 0 = the column, repaired). *)
+Local Open Scope N_scope.
+Definition k_text_starts_with : str := k_tmpl ++ [116;101;120;116;46;115;116;97;114;116;115;95;119;105;116;104].
+Definition k_text_contains : str := k_tmpl ++ [116;101;120;116;46;99;111;110;116;97;105;110;115].
+Definition k_text_ends_with : str := k_tmpl ++ [116;101;120;116;46;101;110;100;115;95;119;105;116;104].
+Local Close Scope N_scope.
+Definition concat_pattern_templates : list str := [k_text_starts_with; k_text_contains; k_text_ends_with].
+Definition known_pattern_hole (dialect : str) (t : triple) : bool :=
+  leqb dialect [115;113;108;105;116;101]%N (* sqlite *) && mem (fst (fst t)) concat_pattern_templates && Nat.eqb (snd (fst t)) 1.
 
-(* On the repaired tree one class is left: F5 (templates that declare strength 100 over a top-level `*` or `/`).
-   F2 (between), F4 (comparison chain), F30 (multiply), C02-N2 (equality under comparison) and C02-N3 (regexp) were
-   repaired in /repo: their triples are no longer excused, so a regression breaks sql_compat. *)
-Definition known_triple (t : triple) : bool := mem (snd t) dishonest_templates.
+(* Two classes are left: F5 (a CHILD template that declares strength 100 over a top-level `*` or `/`) and C02-N5
+   (the pattern hole of a PARENT LIKE template of sql.sqlite).
+   F2 (between), F4 (comparison chain), F30 (multiply), C02-N2 (equality under comparison), C02-N3 (regexp) and
+   C02-N6 (LIKE templates declaring strength 100 / column hole 0) were repaired in /repo: their triples are not
+   excused, so a regression breaks sql_compat. *)
+Definition known_triple (dialect : str) (t : triple) : bool := mem (snd t) dishonest_templates || known_pattern_hole dialect t.
 
 Definition sql_compat (dialect : str) : bool :=
-  forallb (fun tv => known_triple (fst tv) || verdict_ok (snd tv)) (all_triples dialect).
+  forallb (fun tv => known_triple dialect (fst tv) || verdict_ok (snd tv)) (all_triples dialect).
 Definition skeletons_ok (dialect : str) : bool :=
   forallb (fun p => skel_ok (c_sk (snd p)) && negb (top_is_hole (c_sk (snd p)))) (constructs dialect).
 
